@@ -510,6 +510,8 @@ func c07LoadHelper(_ []string) {
 	dir, _ := os.MkdirTemp("/dev/shm", "verif-c07-")
 
 	defer os.RemoveAll(dir)
+	// the memory-backed twin that the simulations of this helper process use
+	defer os.RemoveAll(filepath.Join("/dev/shm", "verif-"+filepath.Base(dir)))
 
 	env := &kit.Env{Scratch: dir}
 	path := filepath.Join(dir, "in.akitackpt")
